@@ -77,7 +77,7 @@ type handledRec struct {
 // Harness clock: `tick` is a counter bumped at every harness event. Exactly one thread
 // runs at a time, so the tick order is the real-time order of the events; an interval
 // [call tick, return tick] of an operation contains the moment it took effect.
-func runRing(p ringProg, choose func(int) int) (*sched.Result, ringInfo) {
+func runRing(cfg sched.Config, p ringProg, choose func(int) int) (*sched.Result, ringInfo) {
 	var (
 		r        *x.Ring
 		info     ringInfo
@@ -94,7 +94,7 @@ func runRing(p ringProg, choose func(int) int) (*sched.Result, ringInfo) {
 		nworkers int
 	)
 	now := func() int { tick++; return tick }
-	res := sched.Run(sched.Config{}, choose, func(s *sched.S) {
+	res := sched.Run(cfg, choose, func(s *sched.S) {
 		r = x.NewRing(p.MaxLen)
 		s.OnOp = func(t *sched.Thread, op sched.Op) {
 			if op.Kind != sched.OpCondWait || op.Obj != any(r.CondPtr()) {
@@ -326,6 +326,7 @@ type replayFile struct {
 	Kind    string    `json:"kind"` // ring | workloop
 	Ring    *ringProg `json:"ring,omitempty"`
 	WL      *wlProg   `json:"workloop,omitempty"`
+	MaxPre  int       `json:"max_preemptions"` // -1 = unbounded; part of the meaning of choices
 	Choices []int32   `json:"choices"`
 	Msg     string    `json:"message"`
 	Trace   string    `json:"trace"`
@@ -348,6 +349,8 @@ func report(t interface {
 	t.Fatalf("C30 violated by %s\n  %s\n  schedule: %s\n  choices: %s", text, res.Msg, res.TraceString(), res.ChoiceString())
 }
 
+var unb = sched.Config{MaxPreemptions: sched.Unbounded}
+
 func rapidChooser(t *rapid.T) func(int) int {
 	return func(n int) int { return rapid.IntRange(0, n-1).Draw(t, "c") }
 }
@@ -358,7 +361,7 @@ func TestRingRapid(t *testing.T) {
 	}
 	rapid.Check(t, func(t *rapid.T) {
 		p := genRingProg(t)
-		res, in := runRing(p, rapidChooser(t))
+		res, in := runRing(unb, p, rapidChooser(t))
 		ev.Case(p.String()+"|"+res.ChoiceString(), ringNontrivial(res, in))
 		ringClasses(p, res, in)
 		ev.ClassN("schedules:random", 1)
@@ -368,7 +371,7 @@ func TestRingRapid(t *testing.T) {
 		if ringNontrivial(res, in) {
 			ev.SampleIf(func() any { return mkSample(p, p.String(), res, "random") })
 		}
-		report(t, res, p.String(), replayFile{Kind: "ring", Ring: &p}, false)
+		report(t, res, p.String(), replayFile{Kind: "ring", Ring: &p, MaxPre: -1}, false)
 	})
 }
 
@@ -402,7 +405,7 @@ type sigRec struct {
 // atomic operation is one step, and a thread runs from the effect of one operation to
 // the announcement of its next without interruption, so s.Steps() read right after a
 // call returns is the step of that call's last atomic operation.
-func runWL(p wlProg, choose func(int) int) (*sched.Result, wlInfo) {
+func runWL(cfg sched.Config, p wlProg, choose func(int) int) (*sched.Result, wlInfo) {
 	var (
 		wl         x.WorkLoop
 		info       wlInfo
@@ -413,7 +416,7 @@ func runWL(p wlProg, choose func(int) int) (*sched.Result, wlInfo) {
 		iter       int
 		nworkers   int
 	)
-	res := sched.Run(sched.Config{}, choose, func(s *sched.S) {
+	res := sched.Run(cfg, choose, func(s *sched.S) {
 		worker := func() {
 			nworkers++
 			w := nworkers
@@ -544,14 +547,14 @@ func TestWorkLoopRapid(t *testing.T) {
 	}
 	rapid.Check(t, func(t *rapid.T) {
 		p := genWLProg(t)
-		res, in := runWL(p, rapidChooser(t))
+		res, in := runWL(unb, p, rapidChooser(t))
 		ev.Case(p.String()+"|"+res.ChoiceString(), wlNontrivial(res, in))
 		wlClasses(p, res, in)
 		ev.ClassN("schedules:random", 1)
 		if wlNontrivial(res, in) {
 			ev.SampleIf(func() any { return mkSample(p, p.String(), res, "random") })
 		}
-		report(t, res, p.String(), replayFile{Kind: "workloop", WL: &p}, false)
+		report(t, res, p.String(), replayFile{Kind: "workloop", WL: &p, MaxPre: -1}, false)
 	})
 }
 
@@ -572,14 +575,14 @@ func TestReplay(t *testing.T) {
 	}
 	switch rf.Kind {
 	case "ring":
-		res, in := runRing(*rf.Ring, sched.Replay(rf.Choices))
+		res, in := runRing(sched.Config{MaxPreemptions: rf.MaxPre}, *rf.Ring, sched.Replay(rf.Choices))
 		ev.Case(rf.Ring.String()+"|"+res.ChoiceString(), true)
 		ev.Nontrivial("replay")
 		ev.Sample(mkSample(rf.Ring, rf.Ring.String(), res, "replay"))
 		_ = in
 		report(t, res, rf.Ring.String(), rf, true)
 	case "workloop":
-		res, _ := runWL(*rf.WL, sched.Replay(rf.Choices))
+		res, _ := runWL(sched.Config{MaxPreemptions: rf.MaxPre}, *rf.WL, sched.Replay(rf.Choices))
 		ev.Case(rf.WL.String()+"|"+res.ChoiceString(), true)
 		ev.Nontrivial("replay")
 		ev.Sample(mkSample(rf.WL, rf.WL.String(), res, "replay"))
